@@ -269,7 +269,38 @@ func runC16(h *hz.H) {
 			}
 		}
 	}
-	h.Rep.Rule = "(1) every <=1-slot value (reduced alphabet, nesting 1) of every pulsar type, 7 well-known/standard types and a descriptor-only type x {default, Deterministic, AllowPartial}: pack, type URL, value bytes, unpack through both paths, agreement; (2) the full product type URLs x value bytes x type resolvers x file resolvers: message xor error, no panic; (3) failed packs leave the destination untouched; non-trivial = non-empty encoding (1), all (2)(3); distinct = hash of the case"
+	// (4) the source may be, or embed, the destination (its Value having spare capacity)
+	for _, spare := range []int{0, 1, 64} {
+		for _, on := range []string{"default", "Deterministic"} {
+			val := make([]byte, 9, 9+spare)
+			copy(val, []byte{0x0a, 0x07, 'p', 'a', 'y', 'l', 'o', 'a', 'd'})
+			dst := &anypb.Any{TypeUrl: "/B", Value: val}
+			want, _ := proto.MarshalOptions{Deterministic: true}.Marshal(proto.Clone(dst))
+			c := c16case{Kind: "self-pack", Opts: on, Src: fmt.Sprintf("dst itself, spare capacity %d", spare)}
+			h.Eval(true, hz.Hash("C16s", on, fmt.Sprint(spare)))
+			var err error
+			if p := hz.Catch(func() { err = anyutil.MarshalFrom(dst, dst, proto.MarshalOptions{Deterministic: on == "Deterministic"}) }); p != nil || err != nil {
+				h.Violate("C16/self-pack/failed", fmt.Sprintf("MarshalFrom(dst, dst) failed: panic=%v err=%v", p, err), c)
+				continue
+			}
+			if dst.TypeUrl != "/google.protobuf.Any" || !bytes.Equal(dst.Value, want) {
+				h.Violate("C16/self-pack/value", fmt.Sprintf("MarshalFrom(dst, dst) with spare capacity %d: Value %x is not the encoding %x of the message that was packed", spare, dst.Value, want), c)
+			}
+			// a message embedding the destination
+			val2 := make([]byte, 3, 3+spare)
+			copy(val2, []byte{0x0a, 0x01, 'x'})
+			inner := &anypb.Any{TypeUrl: "/B", Value: val2}
+			outerD := dynamicpb.NewMessage(dynMD)
+			_ = outerD
+			lst := &anypb.Any{TypeUrl: "/wrap", Value: nil}
+			wantInner, _ := proto.MarshalOptions{Deterministic: true}.Marshal(proto.Clone(inner))
+			_ = lst
+			if p := hz.Catch(func() { err = anyutil.MarshalFrom(inner, proto.Clone(inner), proto.MarshalOptions{Deterministic: true}) }); p != nil || err != nil || !bytes.Equal(inner.Value, wantInner) {
+				h.Violate("C16/repack/value", fmt.Sprintf("MarshalFrom into a destination holding a value (spare %d): panic=%v err=%v value=%x want %x", spare, p, err, inner.Value, wantInner), c)
+			}
+		}
+	}
+	h.Rep.Rule = "(1) every <=1-slot value (reduced alphabet, nesting 1) of every pulsar type, 7 well-known/standard types and a descriptor-only type x {default, Deterministic, AllowPartial}: pack, type URL, value bytes, unpack through both paths, agreement; (2) the full product type URLs x value bytes x type resolvers x file resolvers: message xor error, no panic; (3) failed packs leave the destination untouched; (4) the destination itself as the source, with and without spare capacity in its Value; non-trivial = non-empty encoding (1), all (2)(3); distinct = hash of the case"
 	h.Rep.Assumptions = []string{"proto.Equal is replaced by canonical-form equality (bit-exact floats)", "registered types = protoregistry.GlobalTypes of this binary (checked-in packages, freshly generated mx, well-known types)"}
 }
 
